@@ -120,6 +120,10 @@ Proof.
   rewrite IH. cbn [v_val]. destruct (inb (mkV s e 0%Z) x); lia.
 Qed.
 
+Lemma fill_signal ins outs s e : zeros_added ins outs -> tiles s e outs ->
+  forall x, sigz outs x = sigz ins x /\ cov outs x = (s <=? x) && (x <? e).
+Proof. intros Hz Ht x. split; [apply zeros_added_sigz; exact Hz|apply tiles_cov; exact Ht]. Qed.
+
 Example fill_example :
   let vs := [mkV 10 15 4%Z; mkV 20 30 6%Z; mkV 30 35 7%Z] in
   sorted_from 5 vs /\ end_from 5 vs <= 40 /\
